@@ -74,7 +74,7 @@ func (w *tworld) close() {
 
 // adminTokens: the configured admin token is free-form text; one shape has the length and
 // alphabet of issued tokens
-var adminTokens = []string{"", "Adm1nT0kenOfTheSameLengthAs1ssued"[:32]}
+var adminTokens = []string{"", "Adm1nT0kenOfTheSameLengthAs1ssued"[:32], "aLongerAdm1nSecretThanAnyIssuedT0ken-w1th-45-chars"[:45]}
 
 func openT(path string, adminToken string) *tworld {
 	w := &tworld{live: map[string]bool{}}
@@ -94,7 +94,7 @@ func runC10(env core.Env, rep *core.Report) {
 		depth = 7
 	}
 	maxIssued := 3
-	rep.Bound = fmt.Sprintf("[all operation sequences up to depth %d with at most %d issued tokens; revoke targets: every issued token (live or revoked), an unknown token, the admin token; admin token alternately the default one and one with the length and alphabet of issued tokens]", depth, maxIssued)
+	rep.Bound = fmt.Sprintf("[all operation sequences up to depth %d with at most %d issued tokens; revoke targets: every issued token (live or revoked), an unknown token, the admin token; admin token in turn the default one, one with the length and alphabet of issued tokens, and one of 45 characters; prefixes of valid credentials are probed as unknown]", depth, maxIssued)
 	// Enumerate operation sequences symbolically (token k = k-th issued).
 	type hist []top
 	var all []hist
@@ -257,6 +257,17 @@ func runTokenHistory(rep *core.Report, h []top, seenState map[string]bool, admin
 			}
 		}
 		probe(admin, true, true, "admin")
+		// strings that only share a prefix with a valid credential
+		if len(admin) > 32 {
+			probe(admin[:32], false, false, "unknown(first 32 characters of the admin token)")
+			probe(admin[:32]+"-another-tail", false, false, "unknown(admin token prefix, other tail)")
+		}
+		for _, t := range w.issued {
+			if w.live[t] {
+				probe(t+"-suffix", false, false, "unknown(live token with a suffix)")
+				break
+			}
+		}
 		rep.Sample(func() any { return map[string]any{"ops": h[:i+1], "state": sk} })
 	}
 }
